@@ -61,9 +61,9 @@ Proof.
   - destruct vs as [|x [|n [|? ?]]]; try discriminate Dom.
     destruct ls as [|l0 [|l1 [|? ?]]]; cbn [agree] in Ag; try contradiction; cbn [lopds m_builtin] in M; try discriminate M.
     injection M as <-. destruct Ag as [A0 [A1 _]].
-    apply andb_true_iff in Dom. destruct Dom as [Dom Hm]. apply andb_true_iff in Dom. destruct Dom as [Hx Hn].
+    apply andb_true_iff in Dom. destruct Dom as [Hx Hn].
     cbn [b_okb] in Ok. apply andb_true_iff in Ok. destruct Ok as [OkB _]. apply ty_okb_ok in OkB.
-    apply in_rangeb_iff in Hx. apply in_rangeb_iff in Hn. apply Z.leb_le in Hm.
+    apply in_rangeb_iff in Hx. apply in_rangeb_iff in Hn.
     cbn [b_spec enc_out lenv]. apply (shift_exact sx Tb); try assumption; opd_solve.
   - destruct vs as [|x [|? ?]]; try discriminate Dom.
     destruct ls as [|l0 [|? ?]]; cbn [agree] in Ag; try contradiction; cbn [lopds m_builtin] in M; try discriminate M.
@@ -123,7 +123,7 @@ Qed.
 Lemma params_not_written f j : (j < arity f)%nat -> no_write (pname j) (fst (v_builtin f)) = true.
 Proof.
   intros H. destruct f as [sx Tb| | | | |T]; cbn [arity] in H.
-  - destruct j as [|[|j]]; [| |lia]; destruct sx; reflexivity.
+  - destruct j as [|[|j]]; [| |lia]; cbn [v_builtin]; destruct sx, (nsigned Tb); reflexivity.
   - destruct j as [|j]; [reflexivity | lia].
   - destruct j as [|[|[|j]]]; try lia; reflexivity.
   - destruct j as [|[|[|j]]]; try lia; reflexivity.
@@ -156,9 +156,9 @@ Proof.
   rewrite SUB. clear SUB Ag Len ls.
   destruct f as [sx Tb| | | | |T]; cbn [b_domb] in Dom.
   - destruct vs as [|x [|n [|? ?]]]; try discriminate Dom.
-    apply andb_true_iff in Dom. destruct Dom as [Dom Hm]. apply andb_true_iff in Dom. destruct Dom as [Hx Hn].
+    apply andb_true_iff in Dom. destruct Dom as [Hx Hn].
     cbn [b_okb] in Ok. apply andb_true_iff in Ok. destruct Ok as [OkB _]. apply ty_okb_ok in OkB.
-    apply in_rangeb_iff in Hx. apply in_rangeb_iff in Hn. apply Z.leb_le in Hm.
+    apply in_rangeb_iff in Hx. apply in_rangeb_iff in Hn.
     cbn [b_spec enc_out venv v_builtin]. apply (vshift_exact sx Tb); assumption.
   - destruct vs as [|x [|? ?]]; try discriminate Dom. apply swordb_iff in Dom. cbn [b_spec venv v_builtin].
     apply vabs_exact. exact Dom.
@@ -210,7 +210,7 @@ Lemma b_spec_safe_eq f vs : b_domb f vs = true -> b_spec_safe f vs = b_spec f vs
 Proof.
   intros Dom. destruct f as [sx Tb| | | | |T]; try reflexivity; cbn [b_domb] in Dom.
   - destruct vs as [|x [|n [|? ?]]]; try discriminate Dom. cbn [b_spec_safe b_spec]. f_equal.
-    apply andb_true_iff in Dom. destruct Dom as [Dom _]. apply andb_true_iff in Dom. destruct Dom as [Hx _].
+    apply andb_true_iff in Dom. destruct Dom as [Hx _].
     apply in_rangeb_iff in Hx. destruct (shift_large sx x n Hx) as [L1 L2]. unfold shift_safe.
     destruct (Z.ltb_spec n 0).
     + destruct (Z.leb_spec n (-256)); [rewrite L2 by lia; reflexivity | unfold shift_spec; replace (n <? 0) with true by lia; reflexivity].
